@@ -90,6 +90,15 @@ pub fn run(tier: Tier) -> Run {
     prefixes.push(vec![BOp::BeginFunction, BOp::DecorateFunction(0)]);
     prefixes.push(vec![BOp::BeginFunction, BOp::BeginBlock, BOp::Ret, BOp::EndFunction, BOp::DecorateFunction(0), BOp::SelectFunction(Some(0))]);
     prefixes.push(vec![BOp::BeginFunction, BOp::BeginBlock, BOp::Ret, BOp::BeginBlock, BOp::IAdd]);
+    // functions whose result type and function type are DECLARED (void / int / float return): whether a terminator is
+    // accepted depends on the selection only
+    for k in 0..3u8 {
+        prefixes.push(vec![BOp::DeclareFnTypes(k)]);
+        prefixes.push(vec![BOp::DeclareFnTypes(k), BOp::BeginFunction, BOp::BeginBlock]);
+    }
+    // a finished, named function and a second function whose block is still open (functions built interleaved)
+    prefixes.push(vec![BOp::BeginFunction, BOp::BeginBlock, BOp::Ret, BOp::EndFunction, BOp::NameFunction(0), BOp::BeginFunction, BOp::BeginBlock]);
+    prefixes.push(vec![BOp::BeginFunction, BOp::BeginBlock, BOp::Ret, BOp::BeginBlock, BOp::Ret, BOp::EndFunction, BOp::NameFunction(0), BOp::BeginFunction, BOp::BeginBlock, BOp::Ret, BOp::BeginBlock, BOp::Nop]);
     let d_cont = tier.pick(3, 4);
     let mut cont_transitions = 0u64;
     for p in &prefixes {
@@ -104,6 +113,27 @@ pub fn run(tier: Tier) -> Run {
         cont_transitions += e.transitions;
     }
     run.outcome("continuations_from_prebuilt_modules", cont_transitions);
+    // ---- names: every sequence over {name(function k | an unrelated id, text), select_function_by_name(text)} for ten texts
+    //      (prefixes of each other, multi-byte characters, mangled forms, the empty string) + the structural calls
+    {
+        let mut al: Vec<BOp> = vec![BOp::BeginFunction, BOp::EndFunction, BOp::BeginBlock, BOp::Ret, BOp::SelectFunction(None)];
+        for j in 0..bsys::TEXTS.len() {
+            al.push(BOp::NameAny(Some(0), j));
+            al.push(BOp::NameAny(None, j));
+            al.push(BOp::SelectByText(j));
+        }
+        for pre in [vec![], vec![BOp::BeginFunction, BOp::EndFunction, BOp::BeginFunction, BOp::BeginBlock]] {
+            let fp = |h: &[BOp]| {
+                let mut whole = pre.clone();
+                whole.extend_from_slice(h);
+                bsys::to_step("C12", &whole, bsys::replay(&whole))
+            };
+            let e = xs::enumerate(&al, tier.pick(3, 4), &fp);
+            run.add_all(e.viols.clone());
+            run.merge_outcomes(&e.outcomes);
+            cont_transitions += e.transitions;
+        }
+    }
     // ---- per method (vcalls --c12): every one of the 1149 instruction-emitting methods with no block selected
     let vcalls = crate::report::verif_root().join("harness").join("target").join("release").join("vcalls");
     match std::process::Command::new(&vcalls).arg("--c12").output() {
